@@ -313,7 +313,9 @@ fn format_expression_internal(
                     })
                     .collect();
 
-                format_expression(ctx, expression, shape)
+                // The internal expression takes the place of the parentheses, so it must be formatted under
+                // the same context [e.g. `((-X)) ^ Y` must keep one pair of parentheses]
+                format_expression_internal(ctx, expression, context, shape)
                     .update_leading_trivia(FormatTriviaType::Append(leading_comments))
                     .update_trailing_trivia(FormatTriviaType::Append(trailing_comments))
             } else {
